@@ -70,7 +70,7 @@ def unionOk (a : Ast) (u : Union) : Bool :=
   (match k with | .unsupported => false | _ => true) &&
   u.cases.all (fun c => armTypeOk a c.fieldValue && !c.caseValues.isEmpty) &&
   (match u.default with
-   | some d => armTypeOk a d.fieldValue && !(u.voidCases.contains "default") && d.caseValues == ["default"]
+   | some d => armTypeOk a d.fieldValue && !(u.voidCases.contains "default") && d.caseValues.contains "default"
    | none => true) &&
   (allLabels u).all (labelKindOk a k) &&
   distinctNats ((allLabels u).filterMap (labelValue a)) &&
